@@ -40,16 +40,26 @@ macro_rules! config {
     (@cap cloneable, $e:ty) => {
         const CLONEABLE: bool = true;
         fn clone_vec(v: &V<Self>) -> Option<V<Self>> { Some(v.clone()) }
+        fn clone_ops(w: &mut World<Self>, a: &Value, out: &mut ActOut) -> bool { clone_ops_impl::<Self>(w, a, out) }
     };
 }
 
 use any_vec::mem::{Stack, StackN};
-use any_vec::traits::{Cloneable, None as TNone};
+use any_vec::traits::{Cloneable, None as TNone, Send, Sync};
 #[cfg(feature = "alloc")]
 use any_vec::mem::Heap;
 
 #[cfg(feature = "alloc")]
 config!(CHeap8d, "heap8d", dyn TNone, Heap, Heap, E8a8d, false, 0, "heap", resizable);
+#[cfg(feature = "alloc")]
+config!(CHeap8c, "heap8c", dyn Cloneable, Heap, Heap, E8a8d, false, 0, "heap", resizable, cloneable);
+#[cfg(feature = "alloc")]
+config!(CHeap3c, "heap3c", dyn Cloneable, Heap, Heap, E3a1n, false, 0, "heap", resizable, cloneable);
+#[cfg(feature = "alloc")]
+config!(CHeap0c, "heap0c", dyn Cloneable, Heap, Heap, E0a1d, false, 0, "heap", resizable, cloneable);
+#[cfg(feature = "alloc")]
+config!(CHeap8css, "heap8css", dyn Cloneable + Send + Sync, Heap, Heap, E8a8d, false, 0, "heap", resizable, cloneable);
+config!(CStack8c, "stack8c", dyn Cloneable, Stack<24>, Stack::<24>, E8a8d, true, 3, "stack", cloneable);
 #[cfg(feature = "alloc")]
 config!(CHeap3n, "heap3n", dyn TNone, Heap, Heap, E3a1n, false, 0, "heap", resizable);
 #[cfg(feature = "alloc")]
@@ -336,7 +346,7 @@ fn main() {
         };
     }
     #[cfg(feature = "alloc")]
-    dispatch!(CHeap8d, CHeap3n, CHeap160, CHeap0d, CHeap1n, CHeap2d, CHeap12d, CHeap16d, CHeap24d, CHeap32d, CHeap64n, CHeap160a32, CHeap0n, CFence8d, CFence3n, CFence24d, CFence160, CFence0d, CStack24x3, CStackN3, CStack8x3m, CStack8x3p, CStack8x2p, CStackN2);
+    dispatch!(CHeap8d, CHeap8c, CHeap3c, CHeap0c, CHeap8css, CStack8c, CHeap3n, CHeap160, CHeap0d, CHeap1n, CHeap2d, CHeap12d, CHeap16d, CHeap24d, CHeap32d, CHeap64n, CHeap160a32, CHeap0n, CFence8d, CFence3n, CFence24d, CFence160, CFence0d, CStack24x3, CStackN3, CStack8x3m, CStack8x3p, CStack8x2p, CStackN2);
     #[cfg(not(feature = "alloc"))]
-    dispatch!(CFence8d, CFence3n, CFence24d, CFence160, CFence0d, CStack24x3, CStackN3, CStack8x3m, CStack8x3p, CStack8x2p, CStackN2);
+    dispatch!(CStack8c, CFence8d, CFence3n, CFence24d, CFence160, CFence0d, CStack24x3, CStackN3, CStack8x3m, CStack8x3p, CStack8x2p, CStackN2);
 }
